@@ -222,7 +222,13 @@ type vC05Exec struct {
 	intent              vM  // the operation about to run, for the crash record
 	tear                uint64 // non-zero: the write before the crash point is torn (seed of the choice)
 	tornWhat            vM
+	crash2              int  // > 0: the recovery (commitlog.New) that follows the crash dies too, at its crash2-th crash point
+	recPts              int  // crash points the recovery passed (when it was not interrupted)
+	noSecond            bool // the recovery passed fewer points than crash2
 }
+
+// vC05RecoveryPoint: crash points inside commitlog.New.
+func vC05RecoveryPoint(p string) bool { return strings.HasPrefix(p, "open:") || strings.HasPrefix(p, "rebuild:") }
 
 // applyTear turns the files of a crash right after a write into the files of a crash inside that
 // write: after append:log-written the log file keeps only a byte prefix of what the last write(2)
@@ -449,6 +455,7 @@ func (e *vC05Exec) step1() {
 		c.ops = append(c.ops, vM{"op": "epoch", "e": c.epoch})
 	default:
 		e.cur = "reopen"
+		e.intent = vM{"op": "reopen"}
 		c.doReopen()
 	}
 }
@@ -615,7 +622,7 @@ func (e *vC05Exec) runCrash(clean *vC05Exec, n int, childDisk func() []vC05File)
 		e.sweep()
 	}
 	if !c.viol && c.l != nil {
-		c.doReopen()
+		e.withPts(func() { c.doReopen() })
 		if c.l != nil && !c.viol {
 			c.state()
 			e.sweep()
@@ -683,7 +690,55 @@ func (e *vC05Exec) recover(point string, step int, before, after []vRefRec, hwBe
 	}
 	var l CommitLog
 	var err error
-	p := vCatch(func() { l, err = New(c.opts) })
+	var p string
+	// the crash points of the operation itself / of the commitlog.New the crash happened in
+	lvl := []vM{}
+	opK, opPoint := e.lastHit-e.hits0, point
+	var opDisk interface{} = obs.disk
+	if vC05RecoveryPoint(strings.TrimSuffix(point, "~torn")) {
+		// the process died inside commitlog.New (a clean reopen, or the very first open): the effects of the
+		// operation proper are complete, the crash is the j-th crash point of the recovery
+		j := 0
+		for _, q := range e.hook.seq[e.hits0:] {
+			if vC05RecoveryPoint(q) {
+				j++
+			}
+		}
+		lvl = append(lvl, vM{"j": j, "point": point, "disk": obs.disk})
+		opK, opPoint, opDisk = 0, "", nil
+	}
+	hitsBefore := e.hook.hits
+	if e.crash2 > 0 {
+		e.hook.crashAt = e.hook.hits + e.crash2
+	}
+	var second *vC05Crash
+	func() {
+		defer func() {
+			if x := recover(); x != nil {
+				if cr, ok := x.(vC05Crash); ok {
+					second = &cr
+					return
+				}
+				panic(x)
+			}
+		}()
+		p = vCatch(func() { l, err = New(c.opts) })
+	}()
+	e.hook.crashAt = 0
+	if second != nil {
+		// the recovery died as well; the directory as it is now is recovered again
+		d2 := vC05Disk(c.dir)
+		lvl = append(lvl, vM{"j": e.crash2, "point": second.point, "disk": d2})
+		obs.point += "+" + second.point
+		c.tag += "+" + second.point
+		c.stats["crash2/"+second.point]++
+		p = vCatch(func() { l, err = New(c.opts) })
+	} else {
+		e.recPts = e.hook.hits - hitsBefore
+		if e.crash2 > 0 {
+			e.noSecond = true
+		}
+	}
 	if p != "" || err != nil {
 		obs.reopen = fmt.Sprintf("%v %s", err, p)
 		c.l = nil
@@ -803,7 +858,7 @@ func (e *vC05Exec) recover(point string, step int, before, after []vRefRec, hwBe
 		}
 	}
 	c.ref = got
-	c.ops = append(c.ops, vM{"op": "crash", "intent": e.intent, "k": e.lastHit - e.hits0, "point": point, "disk": obs.disk,
+	c.ops = append(c.ops, vM{"op": "crash", "intent": e.intent, "k": opK, "point": opPoint, "disk": opDisk, "rec": lvl,
 		"offs": obs.offs, "newest": obs.newest, "oldest": obs.oldest, "hw": obs.hw, "cache": obs.cache, "torn": e.tornWhat})
 	e.hwInsideLog()
 	return obs
@@ -867,6 +922,7 @@ func TestVerifC05(t *testing.T) {
 	maxReplays := vEnvInt("VERIF_C05_REPLAYS", 60) // per program; more hits than this are sampled
 	childEvery := vEnvInt("VERIF_C05_CHILD_EVERY", 25)
 	tearOn := vEnvInt("VERIF_C05_TEAR", 1) != 0
+	maxRec := vEnvInt("VERIF_C05_RECOVERY_CRASHES", 3) // per crash: crashes inside the commitlog.New that follows
 	r := vNewRand(vSeed())
 	var progs []vC05Prog
 	if rl := vReplayLines(); rl != nil {
@@ -937,6 +993,26 @@ func TestVerifC05(t *testing.T) {
 			}
 			e.done()
 			out.flush()
+			// the same crash, and the recovery that follows dies at its j-th crash point
+			for j := 1; j <= e.recPts && j <= maxRec && obs != nil && !e.c.viol && (e.recPts > 1 || n%6 == 0); j++ {
+				h4 := &vC05Hook{}
+				h4.install()
+				e2 := vC05NewExec(out, p, "", stats, h4)
+				e2.crash2 = j
+				if e.recPts > maxRec { // long rebuilds: a sample of their points
+					e2.crash2 = 1 + int((p.seed+uint64(n)*31+uint64(j)*7)%uint64(e.recPts))
+				}
+				obs2 := e2.runCrash(clean, n, nil)
+				if obs2 != nil && !e2.noSecond {
+					replays++
+					out.emit(vC05ObsJSON(p, n, obs2, nil))
+					if !e2.c.viol {
+						out.emit(e2.caseJSON(obs2.step == -1))
+					}
+				}
+				e2.done()
+				out.flush()
+			}
 			// the same crash, inside the write that precedes the point
 			if pt := hook.seq[n-1]; tearOn && (pt == "append:log-written" || pt == "append:index-written") {
 				h3 := &vC05Hook{}
